@@ -400,6 +400,12 @@ class Merger:
                 prefix="Merger::_merge_arrays_of_hashes:  ", data=ele)
 
             if merge_mode is AoHMergeOpts.DEEP:
+                if not isinstance(ele, CommentedMap):
+                    raise MergeException(
+                        "Impossible to deeply merge a non-Hash element of an"
+                        " Array-of-Hashes."
+                        , path_next)
+
                 if id_key in ele:
                     id_val = Nodes.tagless_value(ele[id_key])
                 else:
